@@ -8,7 +8,7 @@ git checkout -q -- . ; git clean -qfd
 git checkout -q --detach "$(git -C /repo rev-parse HEAD)" 2>/dev/null
 demo="$sd/demo.py"; runner="/venv/bin/python"
 [ -f "$demo" ] || { demo="$sd/test_demo.py"; runner="/venv/bin/python -m pytest -q -p no:cacheprovider"; }
-run_demo() { ( cd "$wt" && PYTHONPATH="$wt" timeout 900 $runner "$demo" >/tmp/seedlog.$id.$1 2>&1; echo $? ); }
+run_demo() { ( cd "$wt" && PYTHONPATH="$wt" timeout 900 $runner "$demo" >/root/scratch/seedlog.$id.$1 2>&1; echo $? ); }
 pre=$(run_demo pre)
 if ! git apply --check "$sd/patch.diff" 2>/dev/null; then echo "{\"id\":\"$id\",\"applies\":false}"; exit 0; fi
 git apply "$sd/patch.diff"
